@@ -476,7 +476,13 @@ def parse_base_and_stars(p):
 
 # ---------------------------------------------------------------- C emission
 
+LIBC_RENAME = {'strtol': '__vrt_strtol', 'strtoll': '__vrt_strtol', 'strtoul': '__vrt_strtoul', 'strtoull': '__vrt_strtoul', 'strtod': '__vrt_strtod',
+               '__errno_location': '__vrt_errno_location', 'atoi': '__vrt_atoi'}
+
+
 def cid(name):
+    if name[1:] in LIBC_RENAME:
+        return LIBC_RENAME[name[1:]]
     s = name[1:]
     if s.startswith('"'):
         s = s[1:-1]
